@@ -1,1 +1,599 @@
-fn main() {}
+//! C04 support — random operation histories on `SkipList<Vec<u8>, f64>`
+//! against a sorted-vector model, with the structural walker after every
+//! operation.  See /verif/rs/README.md.
+
+use ferrous::storage::skiplist::SkipList;
+use std::collections::BTreeMap;
+use verif_rs::*;
+
+type Item = (Vec<u8>, f64);
+
+const GRID: [f64; 7] = [-2.0, -1.0, -0.5, 0.0, 0.5, 1.0, 2.0];
+const SPECIAL: [f64; 13] = [
+    0.0,
+    -0.0,
+    f64::INFINITY,
+    f64::NEG_INFINITY,
+    1e308,
+    -1e308,
+    5e-324,
+    -5e-324,
+    f64::MAX,
+    f64::MIN,
+    f64::MIN_POSITIVE,
+    9007199254740992.0,
+    9007199254740993.0,
+];
+
+fn next_after(x: f64, up: bool) -> f64 {
+    if x.is_nan() {
+        return 0.0;
+    }
+    if x == 0.0 {
+        return if up { 5e-324 } else { -5e-324 };
+    }
+    if x.is_infinite() {
+        if (x > 0.0) == up {
+            return x;
+        }
+        return if x > 0.0 { f64::MAX } else { f64::MIN };
+    }
+    let b = x.to_bits();
+    let nb = if (x > 0.0) == up { b + 1 } else { b - 1 };
+    f64::from_bits(nb)
+}
+
+fn score_cmp(a: f64, b: f64) -> std::cmp::Ordering {
+    a.partial_cmp(&b).expect("no NaN in the model")
+}
+
+fn item_cmp(a: &Item, b: &Item) -> std::cmp::Ordering {
+    score_cmp(a.1, b.1).then_with(|| a.0.cmp(&b.0))
+}
+
+struct Model {
+    map: BTreeMap<Vec<u8>, f64>,
+}
+
+impl Model {
+    fn sorted(&self) -> Vec<Item> {
+        let mut v: Vec<Item> = self.map.iter().map(|(k, s)| (k.clone(), *s)).collect();
+        v.sort_by(item_cmp);
+        v
+    }
+    fn rank(&self, m: &[u8]) -> Option<usize> {
+        let s = *self.map.get(m)?;
+        let me = (m.to_vec(), s);
+        Some(self.map.iter().filter(|(k, sc)| item_cmp(&((*k).clone(), **sc), &me) == std::cmp::Ordering::Less).count())
+    }
+}
+
+fn pool(size: usize) -> Vec<Vec<u8>> {
+    let fixed: [&[u8]; 12] = [b"", b"a", b"b", b"aa", b"ab", b"\x00", b"\x00\x00", b"\xff", b"\xff\xff", b"a\x00", b"a\xff", b"B"];
+    let mut p: Vec<Vec<u8>> = fixed.iter().take(size).map(|s| s.to_vec()).collect();
+    let mut i = 0u32;
+    while p.len() < size {
+        if i % 3 == 0 {
+            p.push(vec![(i / 3 % 256) as u8, (i / 768) as u8, 0x80]);
+        } else {
+            p.push(format!("m{}", i).into_bytes());
+        }
+        i += 1;
+    }
+    p
+}
+
+fn show_item(i: &Item) -> String {
+    format!("(\"{}\", {:?}/0x{:016x})", escape_bytes(&i.0, 16), i.1, i.1.to_bits())
+}
+
+fn show_items(v: &[Item]) -> String {
+    let mut s = String::from("[");
+    for (i, x) in v.iter().enumerate() {
+        if i > 0 {
+            s.push_str(", ");
+        }
+        if i >= 10 {
+            s.push_str(&format!("… {} more", v.len() - i));
+            break;
+        }
+        s.push_str(&show_item(x));
+    }
+    s.push(']');
+    s
+}
+
+fn items_same(a: &[Item], b: &[Item]) -> bool {
+    a.len() == b.len() && a.iter().zip(b).all(|(x, y)| x.0 == y.0 && x.1.to_bits() == y.1.to_bits())
+}
+
+fn opt_score_same(a: Option<f64>, b: Option<f64>) -> bool {
+    match (a, b) {
+        (None, None) => true,
+        (Some(x), Some(y)) => x.to_bits() == y.to_bits(),
+        _ => false,
+    }
+}
+
+struct Fail {
+    sig: String,
+    detail: String,
+}
+
+struct History<'a> {
+    rng: Rng,
+    pool: &'a [Vec<u8>],
+    list: SkipList<Vec<u8>, f64>,
+    model: Model,
+    trace: Vec<String>,
+    cells: std::collections::BTreeSet<&'static str>,
+    ops: u64,
+    /// clear() probability per 100 000 operations
+    clear_per_100k: u64,
+}
+
+impl<'a> History<'a> {
+    fn gen_score(&mut self) -> f64 {
+        let r = self.rng.below(100);
+        let existing: Option<f64> = if self.model.map.is_empty() {
+            None
+        } else {
+            let i = self.rng.usize_below(self.model.map.len());
+            self.model.map.values().nth(i).copied()
+        };
+        if r < 35 {
+            *self.rng.pick(&GRID)
+        } else if r < 50 {
+            *self.rng.pick(&SPECIAL)
+        } else if r < 72 {
+            match existing {
+                Some(e) => match self.rng.below(3) {
+                    0 => e,
+                    1 => next_after(e, true),
+                    _ => next_after(e, false),
+                },
+                None => 0.5,
+            }
+        } else if r < 90 {
+            (self.rng.below(41) as f64 - 20.0) / 4.0
+        } else {
+            loop {
+                let f = f64::from_bits(self.rng.next_u64());
+                if !f.is_nan() {
+                    break f;
+                }
+            }
+        }
+    }
+
+    fn member(&mut self) -> Vec<u8> {
+        self.pool[self.rng.usize_below(self.pool.len())].clone()
+    }
+
+    fn existing_member(&mut self) -> Option<Vec<u8>> {
+        if self.model.map.is_empty() {
+            return None;
+        }
+        let i = self.rng.usize_below(self.model.map.len());
+        self.model.map.keys().nth(i).cloned()
+    }
+
+    fn note(&mut self, s: String) {
+        if self.trace.len() >= 12 {
+            self.trace.remove(0);
+        }
+        self.trace.push(s);
+    }
+
+    fn fail(&self, api: &str, what: &str, detail: String) -> Fail {
+        Fail { sig: format!("skiplist/{}/{}", api, what), detail: format!("{}; last operations: {}", detail, self.trace.join(" ; ")) }
+    }
+
+    fn check_invariants(&self, after: &str) -> Result<(), Fail> {
+        let probs = self.list.verif_check_invariants();
+        if let Some(p) = probs.iter().min_by_key(|p| normalise_text(p)) {
+            return Err(Fail {
+                sig: format!("invariant/{}", normalise_text(p).replace(' ', "-")),
+                detail: format!("after {}: walker reports {} problem(s), e.g. \"{}\"; last operations: {}", after, probs.len(), p, self.trace.join(" ; ")),
+            });
+        }
+        Ok(())
+    }
+
+    fn full_compare(&mut self) -> Result<(), Fail> {
+        let want = self.model.sorted();
+        let got = self.list.get_all_items();
+        if !items_same(&want, &got) {
+            return Err(self.fail("get_all_items", "mismatch", format!("model {} but list {}", show_items(&want), show_items(&got))));
+        }
+        if self.list.len() != want.len() {
+            return Err(self.fail("len", "mismatch", format!("model has {} members, len() says {}", want.len(), self.list.len())));
+        }
+        if self.list.is_empty() != want.is_empty() {
+            return Err(self.fail("is_empty", "mismatch", format!("model has {} members, is_empty() says {}", want.len(), self.list.is_empty())));
+        }
+        let step = (want.len() / 48).max(1);
+        for (i, it) in want.iter().enumerate().step_by(step) {
+            let r = self.list.get_rank(&it.0);
+            if r != Some(i) {
+                return Err(self.fail("get_rank", "mismatch", format!("member \"{}\" has model rank {} but get_rank says {:?}", escape_bytes(&it.0, 16), i, r)));
+            }
+            let g = self.list.get_by_rank(i);
+            if !g.as_ref().map_or(false, |g| g.0 == it.0 && g.1.to_bits() == it.1.to_bits()) {
+                return Err(self.fail("get_by_rank", "mismatch", format!("rank {} should be {} but is {:?}", i, show_item(it), g.map(|g| show_item(&g)))));
+            }
+            let s = self.list.get_score(&it.0);
+            if !opt_score_same(s, Some(it.1)) {
+                return Err(self.fail("get_score", "mismatch", format!("member \"{}\" should score {:?} but get_score says {:?}", escape_bytes(&it.0, 16), it.1, s)));
+            }
+        }
+        let all = self.list.range_by_rank(0, usize::MAX).items;
+        if !items_same(&want, &all) {
+            return Err(self.fail("range_by_rank", "mismatch", format!("range_by_rank(0, MAX): model {} but list {}", show_items(&want), show_items(&all))));
+        }
+        let all = self.list.range_by_score(f64::NEG_INFINITY, f64::INFINITY).items;
+        if !items_same(&want, &all) {
+            return Err(self.fail("range_by_score", "mismatch", format!("range_by_score(-inf, +inf): model {} but list {}", show_items(&want), show_items(&all))));
+        }
+        self.cells.insert("full-compare");
+        Ok(())
+    }
+
+    fn step(&mut self) -> Result<(), Fail> {
+        self.ops += 1;
+        let r = self.rng.below(1000);
+        let after: String;
+        if r < 330 {
+            // insert (new member or re-score)
+            let rescoring = self.rng.chance(1, 2);
+            let m = if rescoring { self.existing_member().unwrap_or_else(|| self.member()) } else { self.member() };
+            let mut s = self.gen_score();
+            let old = self.model.map.get(&m).copied();
+            if let Some(o) = old {
+                // directed re-score shapes
+                match self.rng.below(8) {
+                    0 => s = o,
+                    1 => s = next_after(o, true),
+                    2 => s = next_after(o, false),
+                    3 if o == 0.0 => s = -o,
+                    _ => {}
+                }
+            }
+            let rank_before = self.model.rank(&m);
+            self.note(format!("insert(\"{}\", {:?})", escape_bytes(&m, 16), s));
+            let got = self.list.insert(m.clone(), s);
+            self.model.map.insert(m.clone(), s);
+            if !opt_score_same(got, old) {
+                return Err(self.fail("insert", "return-value", format!("insert returned {:?}, model says previous score was {:?}", got, old)));
+            }
+            match (rank_before, self.model.rank(&m)) {
+                (None, _) => {
+                    self.cells.insert("insert/new");
+                }
+                (Some(a), Some(b)) => {
+                    let d = if a > b { a - b } else { b - a };
+                    self.cells.insert(match d {
+                        0 => "insert/rescore-cross-0",
+                        1 => "insert/rescore-cross-1",
+                        _ => "insert/rescore-cross-many",
+                    });
+                    if let Some(o) = old {
+                        if o == 0.0 && s == 0.0 && o.to_bits() != s.to_bits() {
+                            self.cells.insert("insert/zero-sign-flip");
+                        }
+                        if o.to_bits() == s.to_bits() {
+                            self.cells.insert("insert/rescore-same");
+                        }
+                    }
+                }
+                _ => {}
+            }
+            if s.is_infinite() {
+                self.cells.insert("score/inf");
+            }
+            if s != 0.0 && s.abs() < f64::MIN_POSITIVE {
+                self.cells.insert("score/subnormal");
+            }
+            if s == 0.0 && s.is_sign_negative() {
+                self.cells.insert("score/negzero");
+            }
+            if self.model.map.iter().any(|(k, v)| *k != m && *v == s) {
+                self.cells.insert("score/tie");
+            }
+            after = "insert".into();
+        } else if r < 480 {
+            let m = if self.rng.chance(3, 4) { self.existing_member().unwrap_or_else(|| self.member()) } else { self.member() };
+            self.note(format!("remove(\"{}\")", escape_bytes(&m, 16)));
+            let got = self.list.remove(&m);
+            let want = self.model.map.remove(&m);
+            self.cells.insert(if want.is_some() { "remove/present" } else { "remove/absent" });
+            if !opt_score_same(got, want) {
+                return Err(self.fail("remove", "return-value", format!("remove returned {:?}, model says {:?}", got, want)));
+            }
+            after = "remove".into();
+        } else if r < 560 {
+            let m = self.member();
+            let got = self.list.get_score(&m);
+            let want = self.model.map.get(&m).copied();
+            self.cells.insert(if want.is_some() { "get_score/present" } else { "get_score/absent" });
+            if !opt_score_same(got, want) {
+                return Err(self.fail("get_score", "mismatch", format!("get_score(\"{}\") = {:?}, model {:?}", escape_bytes(&m, 16), got, want)));
+            }
+            after = "get_score".into();
+        } else if r < 660 {
+            let m = self.member();
+            let got = self.list.get_rank(&m);
+            let want = self.model.rank(&m);
+            self.cells.insert(if want.is_some() { "get_rank/present" } else { "get_rank/absent" });
+            if got != want {
+                return Err(self.fail("get_rank", "mismatch", format!("get_rank(\"{}\") = {:?}, model {:?}", escape_bytes(&m, 16), got, want)));
+            }
+            after = "get_rank".into();
+        } else if r < 730 {
+            let n = self.model.map.len();
+            let rank = if self.rng.chance(1, 10) { usize::MAX - self.rng.usize_below(2) } else { self.rng.usize_below(n + 3) };
+            let got = self.list.get_by_rank(rank);
+            let sorted = self.model.sorted();
+            let want = sorted.get(rank).cloned();
+            self.cells.insert(if want.is_some() { "get_by_rank/inside" } else { "get_by_rank/beyond" });
+            let same = match (&got, &want) {
+                (None, None) => true,
+                (Some(a), Some(b)) => a.0 == b.0 && a.1.to_bits() == b.1.to_bits(),
+                _ => false,
+            };
+            if !same {
+                return Err(self.fail("get_by_rank", "mismatch", format!("get_by_rank({}) = {:?}, model {:?}", rank, got.map(|g| show_item(&g)), want.map(|g| show_item(&g)))));
+            }
+            after = "get_by_rank".into();
+        } else if r < 830 {
+            let n = self.model.map.len();
+            let a = self.rng.usize_below(n + 3);
+            let b = match self.rng.below(10) {
+                0 => usize::MAX,
+                1 => usize::MAX - 1,
+                _ => self.rng.usize_below(n + 3),
+            };
+            let got = self.list.range_by_rank(a, b).items;
+            let sorted = self.model.sorted();
+            let want: Vec<Item> = if a >= sorted.len() || a > b { Vec::new() } else { sorted[a..=b.min(sorted.len() - 1)].to_vec() };
+            self.cells.insert(if a > b {
+                "range_by_rank/reversed"
+            } else if a >= n {
+                "range_by_rank/start-beyond"
+            } else if b >= n {
+                "range_by_rank/end-beyond"
+            } else {
+                "range_by_rank/inside"
+            });
+            if !items_same(&got, &want) {
+                return Err(self.fail("range_by_rank", "mismatch", format!("range_by_rank({}, {}) = {}, model {}", a, b, show_items(&got), show_items(&want))));
+            }
+            after = "range_by_rank".into();
+        } else if r < 960 {
+            let mut lo = self.gen_score();
+            let mut hi = self.gen_score();
+            match self.rng.below(10) {
+                0 => lo = f64::NEG_INFINITY,
+                1 => hi = f64::INFINITY,
+                2 => {
+                    lo = f64::NEG_INFINITY;
+                    hi = f64::INFINITY;
+                }
+                3 => hi = lo,
+                4 => {
+                    // deliberately reversed
+                    if lo < hi {
+                        std::mem::swap(&mut lo, &mut hi);
+                    }
+                }
+                5 | 6 | 7 => {
+                    if lo > hi {
+                        std::mem::swap(&mut lo, &mut hi);
+                    }
+                }
+                _ => {}
+            }
+            let got = self.list.range_by_score(lo, hi).items;
+            let want: Vec<Item> = self.model.sorted().into_iter().filter(|it| it.1 >= lo && it.1 <= hi).collect();
+            self.cells.insert(if lo > hi {
+                "range_by_score/reversed"
+            } else if lo == hi {
+                "range_by_score/point"
+            } else if lo.is_infinite() || hi.is_infinite() {
+                "range_by_score/infinite-bound"
+            } else if want.is_empty() {
+                "range_by_score/empty"
+            } else {
+                "range_by_score/inside"
+            });
+            if !items_same(&got, &want) {
+                return Err(self.fail("range_by_score", "mismatch", format!("range_by_score({:?}, {:?}) = {}, model {}", lo, hi, show_items(&got), show_items(&want))));
+            }
+            after = "range_by_score".into();
+        } else if r < 995 || self.rng.below(500) >= self.clear_per_100k {
+            let got = self.list.len();
+            if got != self.model.map.len() || self.list.is_empty() != self.model.map.is_empty() {
+                return Err(self.fail("len", "mismatch", format!("len() = {}, is_empty() = {}, model has {}", got, self.list.is_empty(), self.model.map.len())));
+            }
+            self.cells.insert("len");
+            after = "len".into();
+        } else {
+            self.note("clear()".into());
+            self.list.clear();
+            self.model.map.clear();
+            self.cells.insert("clear");
+            after = "clear".into();
+        }
+        self.check_invariants(&after)
+    }
+}
+
+struct HistResult {
+    ops: u64,
+    cells: std::collections::BTreeSet<&'static str>,
+    fail: Option<Fail>,
+    maxlen: usize,
+}
+
+fn run_history(hseed: u64, nops: u64, pool_size: usize, compare_every: u64) -> HistResult {
+    let p = pool(pool_size);
+    let mut h = History {
+        rng: Rng::new(hseed),
+        pool: &p,
+        list: SkipList::new(),
+        model: Model { map: BTreeMap::new() },
+        trace: Vec::new(),
+        cells: Default::default(),
+        ops: 0,
+        // short histories: 1 in 1000 operations, long ones: 1 in 25 000
+        clear_per_100k: if nops > 1000 { 4 } else { 100 },
+    };
+    let mut maxlen = 0usize;
+    let r = catch(|| {
+        for i in 0..nops {
+            h.step()?;
+            maxlen = maxlen.max(h.model.map.len());
+            if (i + 1) % compare_every == 0 {
+                h.full_compare()?;
+            }
+        }
+        h.full_compare()?;
+        Ok::<(), Fail>(())
+    });
+    let fail = match r {
+        Ok(Ok(())) => None,
+        Ok(Err(f)) => Some(f),
+        Err(p) => Some(Fail {
+            sig: format!("panic/skiplist/{}", p.loc),
+            detail: format!("panic \"{}\" at {}; last operations: {}", p.msg, p.loc, h.trace.join(" ; ")),
+        }),
+    };
+    HistResult { ops: h.ops, cells: h.cells.clone(), fail, maxlen }
+}
+
+fn absorb(rep: &mut Report, r: HistResult, replay: String, kind: &str) {
+    rep.evaluations += r.ops;
+    for c in &r.cells {
+        rep.cell(format!("{}/{}", kind, c));
+    }
+    if let Some(f) = r.fail {
+        rep.violation(f.sig, format!("{} [history {} stopped after {} ops]", f.detail, replay, r.ops), replay);
+    }
+}
+
+fn shape(seed: u64, i: u64) -> (u64, u64, usize, u64) {
+    let mut rng = Rng::new(mix(seed, 10, i));
+    let nops = rng.range(20, 400) as u64;
+    let pool = *rng.pick(&[3usize, 4, 6, 8, 12, 16, 24, 32, 64]);
+    let every = *rng.pick(&[1u64, 4, 8, 16]);
+    (mix(seed, 11, i), nops, pool, every)
+}
+
+fn main() {
+    install_panic_hook();
+    let args = parse_args();
+    if args.child.is_some() {
+        harness_broken("skiplist has no child mode");
+    }
+    let mut rep = Report::new();
+    if let Some(r) = args.replay.clone() {
+        // hist:<seed>:<nops>:<pool>:<compare every>
+        let p: Vec<&str> = r.split(':').collect();
+        if p.len() != 5 || p[0] != "hist" {
+            harness_broken("replay string is hist:<seed>:<nops>:<pool>:<compare every>");
+        }
+        let n = |i: usize| -> u64 { p[i].parse().unwrap_or_else(|_| harness_broken("bad number in replay string")) };
+        // node heights come from the list's own thread_rng, so repeat a few times
+        let reps = if args.miri { 1 } else { 20 };
+        for k in 0..reps {
+            let res = run_history(n(1), n(2), n(3) as usize, n(4));
+            let failed = res.fail.is_some();
+            absorb(&mut rep, res, r.clone(), "replay");
+            if failed {
+                println!("replay: violation on repetition {}", k + 1);
+                break;
+            }
+        }
+        if rep.violations.is_empty() {
+            println!("replay: no violation in {} repetition(s)", reps);
+        }
+        for v in &rep.violations {
+            println!("replay: VIOLATION {} -- {}", v.sig, v.detail);
+        }
+        rep.emit();
+        return;
+    }
+    if args.miri {
+        let mut rng = Rng::new(mix(args.seed, 1, 0));
+        let nops = args.max_cases.unwrap_or(rng.range(200, 400) as u64);
+        let pool = *rng.pick(&[10usize, 16, 24]);
+        let hseed = mix(args.seed, 2, 0);
+        let res = run_history(hseed, nops, pool, 8);
+        rep.extra_num("max_members", res.maxlen);
+        absorb(&mut rep, res, format!("hist:{}:{}:{}:8", hseed, nops, pool), "miri");
+        rep.extra_str("mode", "miri");
+        rep.extra_num("seed", args.seed);
+        rep.emit();
+        return;
+    }
+    // walker self-test: it must object to a NaN score (the one corruption that
+    // can be produced through the public API)
+    {
+        let l: SkipList<Vec<u8>, f64> = SkipList::new();
+        l.insert(b"a".to_vec(), 1.0);
+        l.insert(b"n".to_vec(), f64::NAN);
+        let fired = !l.verif_check_invariants().is_empty();
+        rep.extra_bool("walker_selftest_fires_on_nan", fired);
+        if !fired {
+            rep.inconclusive("walker self-test: verif_check_invariants() stayed silent on a stored NaN score");
+        }
+    }
+    let budget = Budget::new(args.budget_s);
+    let cap = args.max_cases.unwrap_or(u64::MAX);
+    let mut histories = 0u64;
+    let mut long_histories = 0u64;
+    let mut maxlen = 0usize;
+    let long_ops: u64 = 100_000;
+    let long_target = if args.tier == Tier::Thorough { 8 } else { 2 };
+    // one long history first, so that it is never starved
+    let run_long = |rep: &mut Report, k: u64, maxlen: &mut usize| {
+        let hseed = mix(args.seed, 20, k);
+        let pool = [300usize, 120, 40, 600][(k % 4) as usize];
+        let res = run_history(hseed, long_ops, pool, 64);
+        *maxlen = (*maxlen).max(res.maxlen);
+        absorb(rep, res, format!("hist:{}:{}:{}:64", hseed, long_ops, pool), "long");
+    };
+    if cap > 0 {
+        run_long(&mut rep, 0, &mut maxlen);
+        long_histories += 1;
+    }
+    let mut i = 0u64;
+    while histories + long_histories < cap && !budget.used(0.75) {
+        let (hseed, nops, pool, every) = shape(args.seed, i);
+        let res = run_history(hseed, nops, pool, every);
+        maxlen = maxlen.max(res.maxlen);
+        absorb(&mut rep, res, format!("hist:{}:{}:{}:{}", hseed, nops, pool, every), "short");
+        histories += 1;
+        i += 1;
+    }
+    while histories + long_histories < cap && !budget.over() && (long_histories < long_target || args.tier == Tier::Thorough) {
+        run_long(&mut rep, long_histories, &mut maxlen);
+        long_histories += 1;
+    }
+    while histories + long_histories < cap && !budget.over() {
+        let (hseed, nops, pool, every) = shape(args.seed, i);
+        let res = run_history(hseed, nops, pool, every);
+        maxlen = maxlen.max(res.maxlen);
+        absorb(&mut rep, res, format!("hist:{}:{}:{}:{}", hseed, nops, pool, every), "short");
+        histories += 1;
+        i += 1;
+    }
+    rep.sample(format!("short history shape #0: seed/ops/pool/compare-every = {:?}", shape(args.seed, 0)));
+    rep.extra_num("short_histories", histories);
+    rep.extra_num("long_histories", long_histories);
+    rep.extra_num("max_members", maxlen);
+    rep.extra_str("note", "node heights come from the list's own rand::thread_rng, so list shapes are not reproducible from the seed; operations are");
+    rep.extra_num("elapsed_s", format!("{:.2}", budget.elapsed()));
+    rep.extra_num("seed", args.seed);
+    rep.emit();
+}
